@@ -3,10 +3,10 @@ from vf.runner import Inst
 
 PROPERTY = 'C06'
 LEVEL = 'model_checking'
-BOUNDS = {'quick': dict(pairs='secint8->secint16, secint16->secint8, secint8->secfxp12:4, secfxp12:4->secint12 (m=1)',
+BOUNDS = {'quick': dict(pairs='secint8->secint16, secint16->secint8, secint8->secfxp12:4, secfxp12:4->secint12 (m=1); SecFld(2^61-1)->SecFld(257) signed/unsigned and SecFld(2^33-9)->SecFld(7) with _mod by contract (m=1)',
                         configs='(1,0), (3,1), (5,2) x PRSS on/off for integer pairs'),
           'thorough': dict(pairs='as quick plus secint32->secint64, secfxp16:8 pairs, SecFld(3)->SecFld(11)', configs='(1,0),(2,0),(3,1),(4,1),(5,2),(7,3)')}
-OUTSIDE = ['field-to-field conversion in the quick tier and with m > 1 (secure _mod with m parties)', 'fixed-point to integer with m > 1 (per-share division by 2^f, see DESIGN.md)', 'm > 7']
+OUTSIDE = ['field-to-field conversion with the real reduction _mod in the quick tier (large fields use the contract of _mod, tiny fields run it in the thorough tier) and with m > 1', 'fixed-point to integer with m > 1 (per-share division by 2^f, see DESIGN.md)', 'm > 7']
 ASSUMPTIONS = ['value fits the target type (precondition of C06)', 'random_bits ideal; prod/is_zero_public contract inside _mod (C01)']
 LEVEL_TEXT = ('Bounded symbolic model checking of the real conversion code: the value and every mask summand (t+1 dealers or C(m,t) PRF outputs) are '
               'solver variables, so the obligation "converted value == source value" includes the absence of wrap-around of the opened masked value.')
@@ -51,6 +51,21 @@ def h_single(env):
     mpc = k.mpc
     env.encoded(type(mpc).convert, type(mpc)._convert, type(mpc).trunc, type(mpc)._mod)
     S, T = _types(mpc, src), _types(mpc, dst)
+    if P.get('mod_contract') and env.mode == 'sym':
+        # large source fields: Runtime._mod(x, p_s) by its contract in the symbolic run (the real reduction draws ~log p_s bits with rejection loops);
+        # the contract holds when the masked value it opens is non-negative, x + 2^l >= 0 (l = bit length of the intermediate secure integer type):
+        # outside that precondition the stub returns an arbitrary residue, so a too-short intermediate type surfaces in the conversion result.
+        def _mod(x, b):
+            st = type(x)
+            l = st.bit_length
+            v = kit.signed(env, kit.fval(x), st.field.modulus)
+            n_g = len([n for n in env.vars if n.startswith('garbage')])
+            g = env.fresh(f'garbage{n_g}', 0, b)
+            with symx.no_fork():
+                r = env.ite((v + (1 << l) >= 0) & (v < (1 << l)), v % b, g)
+            return st(st.field(r))
+        mpc._mod = _mod
+        env.stubs.add('Runtime._mod(x, p_s) -> x mod p_s when -2^l <= x < 2^l, arbitrary otherwise (contract of the real reduction, C01; symbolic run only)')
     lo, hi = _range(src)
     a = env.fresh('a', lo, hi)
     dlo, dhi = _range(dst)
@@ -141,6 +156,9 @@ def instances(tier):
             out.append(Inst(f'm1:{src}->{dst}{"" if not args else ",noprss"}', h_single, dict(src=src, dst=dst, args=args), timeout=900, max_paths=5000))
     for (ps, pt, sg) in ([] if q else [(5, 7, True), (5, 7, False), (3, 11, True)]):
         out.append(Inst(f'm1:fld{ps}->fld{pt},signed={int(sg)}', h_single, dict(src=('fld', ps, sg), dst=('fld', pt, sg)), timeout=1800, max_paths=20000))
+    for (ps, pt, sg) in [(2**61 - 1, 257, False), (8589934583, 7, False), (2**61 - 1, 257, True)]:
+        out.append(Inst(f'm1:fld{ps}->fld{pt},signed={int(sg)}[_mod by contract]', h_single, dict(src=('fld', ps, sg), dst=('fld', pt, sg), mod_contract=True),
+                        timeout=1800, max_paths=20000, n_validate=1))
     cfgs = [(3, 1), (5, 2)] if q else [(2, 0), (3, 1), (4, 1), (5, 2), (7, 3)]
     for (m, t) in cfgs:
         for prss in (True, False):
